@@ -249,6 +249,115 @@ def run(ctx, report: Report) -> None:
     r5 = report.rule('C18-R5', 'ordering semantics over all relative orders of (min, max, value)', floor=100)
     range_table(ctx, report, r5, mmod, mr, itype_var)
 
+    # ---- R6 ---------------------------------------------------------------------------------------------
+    r6 = report.rule('C18-R6', 'every string a value-shape regex accepts is converted (no accepted value is lost in int()/float())', floor=8)
+    from ..callgraph import CallGraph
+    from ..excflow import ExcFlow, INT_WS
+    cg = ctx.get('callgraph', lambda: CallGraph(ctx.types, src))
+    ef = ExcFlow(ctx, cg)
+    for q, f_ in mmod.functions.items():
+        if not q.startswith('Inputs.'):
+            continue
+        for c in [n for n in walk_no_nested(f_) if isinstance(n, ast.Call) and call_name(n) in ('int', 'float') and n.args]:
+            if inv.folder.try_ev('css_match', c.args[0], default=None) is not None:
+                continue
+            if call_name(c) == 'int':
+                base = inv.folder.try_ev('css_match', c.args[1], default=10) if len(c.args) > 1 else 10
+                digits = '0-9a-fA-F' if base == 16 else '0-9'
+                dom = f'{INT_WS}[+-]?[{digits}]+(?:_[{digits}]+)*{INT_WS}'
+            else:
+                dom = (f'{INT_WS}[+-]?(?:[0-9]+(?:_[0-9]+)*\\.?(?:[0-9]+(?:_[0-9]+)*)?|\\.[0-9]+(?:_[0-9]+)*)'
+                       f'(?:[eE][+-]?[0-9]+(?:_[0-9]+)*)?{INT_WS}')
+            ok, why = ef.group_language_ok(mmod, f_, c.args[0], dom, 0, None)
+            r6.instance({'function': q, 'conversion': unparse(c)[:60], 'accepted_strings_inside_the_domain': ok, 'why': why},
+                        key=f'{q}|{unparse(c)[:60]}')
+            r6.obligation(ok is True)
+            if ok is False:
+                r6.violation(f'css_match.{q} {unparse(c)[:50]} loses accepted values', mmod.where(c),
+                             f'{q}: `{unparse(c)[:60]}` - {why}. The value passed the shape regex, so it is a valid HTML value; a '
+                             f'conversion error here is swallowed by the digit-limit handler of parse_value and the valid value is '
+                             f'treated as missing (the control is then always in range / never bounds a range)')
+            elif ok is None:
+                # a helper that converts named groups of a match handed in by its callers: check each caller's regex/groups
+                a0 = c.args[0]
+                params = [a.arg for a in f_.args.args] + ([f_.args.vararg.arg] if f_.args.vararg else [])
+                handled = False
+                if isinstance(a0, ast.Call) and isinstance(a0.func, ast.Attribute) and a0.func.attr == 'group' \
+                        and isinstance(a0.func.value, ast.Name) and a0.func.value.id in params:
+                    mpos = [a.arg for a in f_.args.args if a.arg not in ('self', 'cls')].index(a0.func.value.id)
+                    for q2, f2 in mmod.functions.items():
+                        for site in [n for n in walk_no_nested(f2) if isinstance(n, ast.Call) and isinstance(n.func, ast.Attribute)
+                                     and n.func.attr == f_.name and len(n.args) > mpos and isinstance(n.args[mpos], ast.Name)]:
+                            names_ = [inv.folder.try_ev('css_match', a, default=None) for a in site.args[mpos + 1:]]
+                            regs = ef.regex_of_match_var(mmod, f2, site.args[mpos].id)
+                            if not regs or not all(isinstance(x, str) for x in names_):
+                                continue
+                            handled = True
+                            import re._parser as _sp
+                            regs = [(r_, h_) for r_, h_ in regs if all(g in _sp.parse(r_.pattern, r_.flags).state.groupdict for g in names_)]
+                            for rgx, _ in regs:
+                                for g in names_:
+                                    s_ = rx.System()
+                                    G = s_.add('g', rgx.pattern, rgx.flags, group=g)
+                                    D = s_.add('d', dom, 0)
+                                    s_.freeze()
+                                    w = rx.included(G, D)
+                                    r6.instance({'function': q, 'called_from': q2, 'regex': rgx.name, 'group': g, 'counterexample': w},
+                                                key=f'{q}|{q2}|{rgx.name}|{g}')
+                                    r6.obligation(w is None)
+                                    if w is not None:
+                                        r6.violation(f'css_match.{q} via {q2} {rgx.name}:{g} loses accepted values', mmod.where(site),
+                                                     f'{q2} converts group {g!r} of {rgx.name} with `{unparse(c)[:40]}` (in {q}); the group can be '
+                                                     f'{w!r}, outside the domain of the conversion: a valid value is treated as missing')
+                if not handled:
+                    r6.note(f'{q}: `{unparse(c)[:60]}`: {why} - not decided for this site')
+
+    # ---- R7 ---------------------------------------------------------------------------------------------
+    r7 = report.rule('C18-R7', 'all parsed values of one input type have one arity (tuples are compared lexicographically)', floor=5)
+    import re._parser as _sp2
+    from ..interp import Obj as _O, Raised as _R, call_function as _call
+    from ..tables import match_obj as _mo
+    sample = {'year': '2000', 'month': '01', 'day': '02', 'hour': '10', 'minutes': '30', 'week': '05', 'value': '7'}
+    by_pattern = {r_.pattern: r_ for r_ in inv.regexes if r_.module == 'css_match' and r_.kind == 'module'}
+    for itype in sorted(RANGE_TYPES):
+        arities = {}
+        for mask in range(0, 8):
+            used = {}
+
+            def matcher(rx_obj, text, *a_, _mask=mask, _used=used):
+                r_ = by_pattern.get(rx_obj.get('pattern'))
+                if r_ is None:
+                    raise miniev.Unsupported('match on a regex outside the inventory')
+                names_ = sorted(_sp2.parse(r_.pattern, r_.flags).state.groupdict)
+                extra = [n_ for n_ in names_ if n_ not in sample]
+                groups = {n_: sample[n_] for n_ in names_ if n_ in sample}
+                for i_, n_ in enumerate(extra[:3]):
+                    groups[n_] = ('30' if not (_mask >> i_) & 1 else None)
+                _used['regex'] = r_.name
+                _used['optional'] = {n_: groups[n_] for n_ in extra}
+                groups[0] = text
+                return _mo(groups)
+            try:
+                stubs_ = {f'css_match.{q_}': (lambda *a__, **k__: True) for q_ in mmod.functions if q_.startswith('Inputs.validate')}
+                stubs_['re.Pattern.match'] = matcher
+                res = _call(ctx, 'css_match.Inputs._parse_value', [itype, 'v'], {}, stubs_, None)
+            except _R:
+                continue
+            except miniev.Unsupported as e:
+                raise AnalysisError(f'Inputs._parse_value({itype!r}): outside the evaluable fragment: {e}')
+            if isinstance(res, (tuple, list)):
+                arities.setdefault(len(res), dict(used))
+        r7.instance({'type': itype, 'tuple_lengths': sorted(arities)}, key=f'arity|{itype}')
+        r7.obligation(len(arities) <= 1)
+        if len(arities) > 1:
+            ex = {k_: v_.get('optional') for k_, v_ in arities.items()}
+            r7.violation(f'css_match.Inputs._parse_value arity {itype}', mmod.where(src.func('css_match.Inputs._parse_value')[1]),
+                         f'type={itype}: parsed values come out as tuples of lengths {sorted(arities)} depending on which optional '
+                         f'groups are present ({ex}); tuples of different length compare lexicographically (the shorter one first), so '
+                         f'two spellings of the same instant (10:30 and 10:30:00) are ordered, and min/max written one way and the value '
+                         f'the other way give the wrong range verdict')
+
+
 
 def range_table(ctx, report, r5, mmod, mr, itype_var):
     """Decision table of match_range over every relative order / None-ness of (min, max, value), type and query."""
